@@ -1304,3 +1304,12 @@ pub enum JpegReconstructionStatus {
     /// JPEG bitstream reconstruction data is not found. Result may change with more data.
     NeedMoreData,
 }
+
+#[cfg(jxl_oxide_verif)]
+impl JxlImage {
+    /// Verification hook: state tag of every frame render handle, see
+    /// `RenderContext::verif_render_states`.
+    pub fn verif_render_states(&self) -> Vec<(usize, &'static str)> {
+        self.ctx.verif_render_states()
+    }
+}
